@@ -7,6 +7,7 @@ package main
 //   record <family> [flags]              harness-generated cases -> engine -> traces for TLC
 
 import (
+	"strings"
 	"bufio"
 	"crypto/sha1"
 	"encoding/hex"
@@ -241,7 +242,15 @@ func parseCommon(name string, args []string, extra func(fs *flag.FlagSet)) commo
 func probeMain(args []string) {
 	bs, _ := strconv.Atoi(args[0])
 	pairs := []KV{}
-	for _, kv := range [][2]string{{"a", "1"}, {"ab", "2"}, {"abc", "3"}, {"b", "4"}, {"ba", "5"}, {"c", "x"}} {
+	def := [][2]string{{"a", "1"}, {"ab", "2"}, {"abc", "3"}, {"b", "4"}, {"ba", "5"}, {"c", "x"}}
+	if env := os.Getenv("KVH_STORE"); env != "" { // k=v,k=v
+		def = nil
+		for _, kv := range strings.Split(env, ",") {
+			i := strings.Index(kv, "=")
+			def = append(def, [2]string{kv[:i], kv[i+1:]})
+		}
+	}
+	for _, kv := range def {
 		pairs = append(pairs, KV{[]byte(kv[0]), []byte(kv[1])})
 	}
 	for _, q := range args[1:] {
